@@ -434,6 +434,23 @@ class Exec:
         k = li['n']
         li['n'] += 1
         line = self.f.blocks[src]['instrs'][-1].get('line', 0)
+        # `use lemma(args) at backN [if cond]`: the lemma applied in the state at the end of the body, on every back edge of loop N
+        # (`atheader(N, e)` names the value e had at the loop head of this iteration)
+        if self.contract is not None and self.top is self:
+            for (site, lname, largs, ucond) in self.contract.uses:
+                if site != 'back%d' % loop['ordinal']:
+                    continue
+                if lname not in vc.cs.lemmas:
+                    raise ContractError('use of unknown lemma %s' % lname)
+                evu = self.spec(env, st, self.entry_state, self.entry_env)
+                try:
+                    avs = [evu.eval(a) for a in largs]
+                    ug = cond
+                    if ucond is not None:
+                        ug = vc.define(self.nm('usecond$b%d.%d' % (h, k)), 'Bool', and_(cond, evu.eval(ucond).term))
+                except SpecError as e:
+                    raise ContractError('%s: use %s at back%d: %s' % (short_fn(self.prog, self.f.name), lname, loop['ordinal'], e))
+                apply_lemma(vc, vc.cs.lemmas[lname], avs, ug, 'loop%d.back%d.use.%s' % (loop['ordinal'], k, lname), self.contract.tags, line)
         for i, cl in enumerate(lc.invariants):
             ev = self.spec(env, st, self.entry_state, self.entry_env)
             g = self.eval_clause(ev, cl, 'invariant', 'goal')
